@@ -5,7 +5,7 @@ import Proofs.Blockwise.C05Upload
 
 Model: `AiocoapModel/Blockwise/{BlockOptC,Client,RefServer}.lean` — the client machine
 `start`/`step` (run by the driver as `runClient` over recorded responses and as `transfer`
-against the reference server).  Three groups of theorems:
+against the reference server).  Four groups of theorems:
 
 * **wire** (`C05_block1_*`, `C05_block2_szx_never_grows`, `C05_block2_szx_below_hint`): against
   EVERY response sequence (conforming or not) the Block1 requests the client emits are an
